@@ -418,8 +418,42 @@ def case_sh(ctx, N, seed_kind):
         scaling_obligations(ctx, "(e) sub-harmonic screen:", run, base, pts, dict(P), lambda vals, cv: _replay_scale_sh(N, vals, cv))
 
 
+def replay_custom_fft(N):
+    ps = _ps()
+    import scipy.fft
+    bad = []
+    for name, f in (("numpy.fft.ifft2", numpy.fft.ifft2), ("scipy.fft.ifft2", scipy.fft.ifft2)):
+        for fn, args in ((ps.ft_phase_screen, (0.2, N, 0.1, 30.0, 0.01)), (ps.ft_sh_phase_screen, (0.2, N, 0.1, 30.0, 0.01))):
+            a = fn(*args, seed=numpy.random.default_rng(5))
+            b = fn(*args, FFT=f, seed=numpy.random.default_rng(5))
+            if not numpy.allclose(a, b, rtol=1e-9, atol=1e-12 * float(numpy.abs(a).max())):
+                bad.append("%s(FFT=%s) differs from the default transform by a factor %.6g" % (fn.__name__, name, float(numpy.abs(b).max() / numpy.abs(a).max())))
+    return bool(bad), dict(what="; ".join(bad) or "a supplied normalised inverse FFT gives the same screen", N=N)
+
+
+def case_custom_fft(ctx, N):
+    """the optional FFT argument (a normalised inverse 2-D transform, as numpy.fft.ifft2) changes nothing (even N)"""
+    ps = _ps()
+    St.pow_uf_for = {Fr(11, 6)}
+    ctx.encoded(ps.ft_phase_screen, ps.ft_sh_phase_screen, ps.ift2)
+    ctx.bounds.update(N=N, FFT="a callable computing the normalised inverse 2-D DFT (numpy.fft.ifft2's contract)")
+    X, Y = symarr("x", (N, N)), symarr("y", (N, N))
+    rp = lambda m: replay_custom_fft(4 if N == 2 else N)
+    with npx.symbolic(ps):
+        a = numpy.asarray(ps.ft_phase_screen(P["r0"], N, P["delta"], P["L0"], P["l0"], seed=Gen([X, Y])), dtype=object)
+        b = numpy.asarray(ps.ft_phase_screen(P["r0"], N, P["delta"], P["L0"], P["l0"], FFT=npx.FFT.ifft2, seed=Gen([X, Y])), dtype=object)
+    ctx.paths += 1
+    ctx.prove("ft_phase_screen(FFT=inverse transform) = ft_phase_screen() for the same draws", PRE, all_eq(a, b), replay=rp, timeout_ms=60000)
+    with npx.symbolic(ps):
+        g1, g2 = npx.Stream(z3.Real("stream!h1")), npx.Stream(z3.Real("stream!h1"))
+        a = numpy.asarray(ps.ft_sh_phase_screen(P["r0"], N, P["delta"], P["L0"], P["l0"], seed=g1), dtype=object)
+        b = numpy.asarray(ps.ft_sh_phase_screen(P["r0"], N, P["delta"], P["L0"], P["l0"], FFT=npx.FFT.ifft2, seed=g2), dtype=object)
+    ctx.paths += 1
+    ctx.prove("ft_sh_phase_screen(FFT=inverse transform) = ft_sh_phase_screen() for the same stream", PRE, all_eq(a, b), replay=rp, timeout_ms=60000)
+
+
 def build_cases(tier):
-    cases = [("ft/N=2", case_ft, dict(N=2))]
+    cases = [("ft/N=2", case_ft, dict(N=2)), ("custom-FFT/N=2", case_custom_fft, dict(N=2))]
     if tier == "thorough":
         cases.append(("ft/N=4", case_ft, dict(N=4)))
     for kind in ("generator", "int", "none"):
